@@ -374,6 +374,17 @@ func (s *jsession) exec(op string) string {
 			if !reflect.DeepEqual(s.held, s.heldCopy) {
 				s.fail("C08 v1: stopped before the release, yet the delivered slice was modified: %v -> %v", s.heldCopy, s.held)
 			}
+			// the loop returns: its deferred pass() runs.  The slice the consumer still holds
+			// must not be delivered a second time (C16: duplicate-free)
+			nOut := len(s.outs)
+			for i := 0; i < 8 && len(s.outs) == nOut; i++ {
+				s.busy = nil
+				s.call(s.pass)
+			}
+			s.busy = nil
+			if len(s.outs) != nOut {
+				s.fail("C16 v1 join: stopped while the consumer holds a slice it has not released, the deferred pass() delivered %v again", s.outs[len(s.outs)-1])
+			}
 			s.st = "done"
 			s.snapshot()
 			return strings.Replace(strings.Replace(snap, "st=await", "st=done", 1), " pa=1", " pa=0", 1)
